@@ -50,7 +50,29 @@ def run_spec(draw, kinds=("flat", "flat", "nested", "nested", "fi")):
     pr = draw(jumpy_prices(n, tickers))
     kind = draw(st.sampled_from(list(kinds)))
     spy = ["Probe", {"key": "c16spy", "run_always": True}]
-    if kind == "flat" and draw(st.integers(0, 9)) == 0:
+    z_ = draw(st.integers(0, 9)) if kind == "flat" else None
+    if z_ == 1:
+        # a 2x long book of a coupon-paying security whose price falls just below the level at which the positions are worth less than the
+        # debt - by less than the carry that arrives in cash at that opening: the value of the date is above zero, the book is not bankrupt
+        p0 = draw(st.sampled_from([100.0, 64.0, 20.0]))
+        k = draw(st.integers(1, n - 1))
+        gap, coupon = draw(st.sampled_from([(0.0005, 0.002), (0.001, 0.01), (0.01, 0.05)]))
+        p1 = round(p0 * (0.5 - gap), 6)
+        return {
+            "dates": ds,
+            "prices": {"a": [p0] * k + [p1] * (n - k)},
+            "rng_seed": 0,
+            "frames": {"coupons": {"kind": "frame", "cols": {"a": [round(p0 * coupon, 6)] * n}}},
+            "additional": ["coupons"],
+            "kind": "flat",
+            "carry": True,
+            "carry_saves": True,
+            "tree": {"name": "root", "kind": "Strategy", "algos": [spy, ["RunOnce", {}], ["WeighSpecified", {"weights": {"a": 2.0}}], ["Rebalance", {}]], "children": [{"sec": "a", "kind": "CouponPayingSecurity"}]},
+            "integer_positions": False,
+            "initial_capital": 1e6,
+            "fee": {"kind": "none"},
+        }
+    if z_ == 0:
         # a book whose value lands on exactly zero and stays there (2x long with the price halving, 1x short with the price doubling;
         # all amounts exact in binary floating point): zero is not below zero
         lev, p0, p1 = draw(st.sampled_from([(2.0, 16.0, 8.0), (2.0, 100.0, 50.0), (4.0, 64.0, 48.0), (-1.0, 16.0, 32.0), (-1.0, 50.0, 100.0)]))
@@ -139,7 +161,7 @@ def case_run(ctx, spec):
 
     interp.Probe.registry["c16spy"] = cb
     try:
-        b = interp.mk_backtest(bt, {k: v for k, v in spec.items() if k not in ("kind", "carry", "two_step", "ruinous_fee", "hedge_secs", "exact_zero")})
+        b = interp.mk_backtest(bt, {k: v for k, v in spec.items() if k not in ("kind", "carry", "two_step", "ruinous_fee", "hedge_secs", "exact_zero", "carry_saves")})
         holder["root"] = b.strategy
         try:
             import contextlib
